@@ -10,9 +10,10 @@ EXTENDS JsonRpc
      tl(a []struct, b? map[string]*struct)         simulateTransactions(.., transactions, ..)
      tc(a *BlockID, b? ResponseFlags)              getBlockWithTxs(blockID *BlockID, responseFlags ResponseFlags)
      tq(ctx, a? []*struct, b? BlockID)
-     te(a *EventArgs, b? *struct)                  getEvents(args *EventArgs) *)
+     te(a *EventArgs, b? *struct)                  getEvents(args *EventArgs)
+     tr(a ResourceBoundsMap, b? *ResourceBounds)   the tags of the production validator (required struct, felt_max_bits) *)
 P(n, o, t) == [name |-> n, opt |-> o, ty |-> t]
-TMethods == {"ts", "tp", "tl", "tc", "tq", "te"}
+TMethods == {"ts", "tp", "tl", "tc", "tq", "te", "tr"}
 MCMethods ==
   [m \in {"m0", "m2", "m1o", "mctx"} \cup TMethods |->
      CASE m = "m0"   -> [ctx |-> FALSE, params |-> <<>>]
@@ -24,7 +25,8 @@ MCMethods ==
        [] m = "tl"   -> [ctx |-> FALSE, params |-> <<P("a", FALSE, "slice"),   P("b", TRUE, "mapp")>>]
        [] m = "tc"   -> [ctx |-> FALSE, params |-> <<P("a", FALSE, "pcustom"), P("b", TRUE, "flags")>>]
        [] m = "tq"   -> [ctx |-> TRUE,  params |-> <<P("a", TRUE,  "lsp"),     P("b", TRUE, "custom")>>]
-       [] m = "te"   -> [ctx |-> FALSE, params |-> <<P("a", FALSE, "pstruct"), P("b", TRUE, "pstruct")>>]]
+       [] m = "te"   -> [ctx |-> FALSE, params |-> <<P("a", FALSE, "pstruct"), P("b", TRUE, "pstruct")>>]
+       [] m = "tr"   -> [ctx |-> FALSE, params |-> <<P("a", FALSE, "struct"),  P("b", TRUE, "pstruct")>>]]
 
 (* the typed alphabet: every params value of a typed method over the tokens its slot types have
    (positional: 0, 1, 2 values and 2 with a superfluous third; named: every combination, with and
